@@ -106,3 +106,33 @@ Theorem C09_interrupt_legacy_refuted :
   fst (CacheProofs.exec_cached positive Pos.eqb exec key1 c1 ask st_none ins0) = OOk [(32%positive, VStr 1)] None.
 Proof. exact legacy_cached_interrupt_refuted. Qed.
 Print Assumptions C09_interrupt_legacy_refuted.
+
+(* ---- the store underneath DiskCache (diskcache.Disk.fetch): with the raw-only Disk of fix 47fd265 no byte string reaches an
+        unpickler - the store's or DiskCache's - before its HMAC check passed; records in pickle mode, texts that are no
+        signature and missing records are misses ---- *)
+From HG Require Import DiskStore.
+
+Theorem C09_store_loads_authenticated : forall (bytes tag : Type) teqb (deser : bytes -> option val) (mac : name -> bytes -> tag) k payload sig b,
+  In b (snd (store_get bytes tag teqb deser mac true k payload sig)) ->
+  payload = Some (RRaw bytes tag b) /\ exists t, sig = Some (RText bytes tag t) /\ teqb t (mac k b) = true.
+Proof. intros. eapply raw_only_loads_authenticated; eassumption. Qed.
+Print Assumptions C09_store_loads_authenticated.
+
+Theorem C09_store_hit_authenticated : forall (bytes tag : Type) teqb (deser : bytes -> option val) (mac : name -> bytes -> tag) k payload sig v,
+  fst (store_get bytes tag teqb deser mac true k payload sig) = SHit v ->
+  exists b t, payload = Some (RRaw bytes tag b) /\ sig = Some (RText bytes tag t) /\ teqb t (mac k b) = true /\ deser b = Some v.
+Proof. intros. eapply raw_only_hit_authenticated; eassumption. Qed.
+Print Assumptions C09_store_hit_authenticated.
+
+Theorem C09_store_foreign_records_miss : forall (bytes tag : Type) teqb (deser : bytes -> option val) (mac : name -> bytes -> tag) k payload sig,
+  (match payload with Some (RRaw _ _ _) => False | _ => True end \/
+   match sig with Some (RText _ _ _) => False | _ => True end) ->
+  fst (store_get bytes tag teqb deser mac true k payload sig) = SMiss.
+Proof. intros. apply raw_only_foreign_records_miss; assumption. Qed.
+Print Assumptions C09_store_foreign_records_miss.
+
+(* the store as diskcache ships it unpickles a pickle-mode record while reading it: the defect repaired by 47fd265 *)
+Theorem C09_store_legacy_refuted : forall (bytes tag : Type) teqb (deser : bytes -> option val) (mac : name -> bytes -> tag) k b sig,
+  In b (snd (store_get bytes tag teqb deser mac false k (Some (RPickle bytes tag b)) sig)).
+Proof. intros. apply legacy_store_unpickles_unauthenticated. Qed.
+Print Assumptions C09_store_legacy_refuted.
